@@ -326,6 +326,159 @@ def _reads(fn, cname):
     return param, out
 
 
+# ---- state between two constructor calls (structural; seeded change C12-4: a class-level dict caching
+# ---- the _Code copies by (co_filename, co_name, co_firstlineno))
+STATE_CLASSES = ('_Code', '_Frame', '_Object', '_Truncated', 'Traceback', 'RemoteTraceback',
+                 'ExceptionWithTraceback', 'ExceptionInfo')
+
+
+def _immutable_literal(v):
+    if isinstance(v, ast.Constant):
+        return True
+    if isinstance(v, ast.Tuple):
+        return all(_immutable_literal(e) for e in v.elts)
+    if isinstance(v, ast.UnaryOp) and isinstance(v.operand, ast.Constant):
+        return True
+    return False
+
+
+def _class_bindings(tree, cname):
+    """every class-level binding of `cname`, in program order: (name, Coq `cbind` term).  A method is a
+    function; a name bound to a literal that cannot be mutated is CbConst; to another name CbRef; to a
+    dict / list / set display, a comprehension or a call CbMutable (a container shared by all instances
+    and all constructor calls); anything else CbOther.  `if sys.version_info >= (3, 11):` blocks are
+    entered (the harness runs 3.12)."""
+    out = []
+
+    def src(n):
+        return _codes(_u(n).split('\n')[0][:60])
+
+    def walk(body):
+        for st in _strip_doc(body):
+            if isinstance(st, (ast.FunctionDef, ast.AsyncFunctionDef)):
+                out.append((st.name, 'CbMethod'))
+            elif isinstance(st, ast.Assign) or (isinstance(st, ast.AnnAssign) and st.value is not None):
+                targets = st.targets if isinstance(st, ast.Assign) else [st.target]
+                v = st.value
+                if _immutable_literal(v):
+                    kind = 'CbConst'
+                elif isinstance(v, ast.Name):
+                    kind = 'CbRef %s' % _codes(v.id)
+                elif isinstance(v, (ast.Dict, ast.List, ast.Set, ast.ListComp, ast.DictComp, ast.SetComp,
+                                    ast.GeneratorExp, ast.Call)):
+                    kind = 'CbMutable %s' % src(v)
+                else:
+                    kind = 'CbOther %s' % src(v)
+                for t in targets:
+                    names = [t] if isinstance(t, ast.Name) else \
+                        (list(t.elts) if isinstance(t, (ast.Tuple, ast.List)) else [t])
+                    for nm in names:
+                        out.append((nm.id, kind) if isinstance(nm, ast.Name) else ('?', 'CbOther %s' % src(nm)))
+            elif isinstance(st, ast.AnnAssign) or isinstance(st, ast.Pass):
+                continue
+            elif isinstance(st, ast.If) and _u(st.test) == 'sys.version_info >= (3, 11)':
+                walk(st.body)
+                walk(st.orelse)
+            else:
+                out.append(('?', 'CbOther %s' % src(st)))
+
+    walk(_cls(tree, cname).body)
+    return out
+
+
+def _module_kinds(tree):
+    """module-level names of billiard/einfo.py -> Coq `gkind` (what a constructor can reach by name)"""
+    import builtins
+    kinds = {}
+
+    def bind(name, k):
+        # a name bound twice at module level (or rebound anywhere by `global`) is a variable
+        kinds[name] = k if name not in kinds else 'GkVariable'
+
+    for st in tree.body:
+        if isinstance(st, (ast.Import, ast.ImportFrom)):
+            for a in st.names:
+                bind((a.asname or a.name).split('.')[0], 'GkModule')
+        elif isinstance(st, ast.ClassDef):
+            bind(st.name, 'GkClass')
+        elif isinstance(st, (ast.FunctionDef, ast.AsyncFunctionDef)):
+            bind(st.name, 'GkFunction')
+        else:
+            # a name bound once to a value that is no container display / comprehension / call result
+            # (DEFAULT_MAX_FRAMES = sys.getrecursionlimit() // 8) is a plain value, anything else a variable
+            plain = isinstance(st, ast.Assign) and len(st.targets) == 1 and isinstance(st.targets[0], ast.Name) \
+                and not isinstance(st.value, ast.Call) \
+                and not any(isinstance(x, (ast.Dict, ast.List, ast.Set, ast.ListComp, ast.DictComp, ast.SetComp,
+                                           ast.GeneratorExp, ast.Lambda)) for x in ast.walk(st.value))
+            for n in ast.walk(st):
+                if isinstance(n, ast.Name) and isinstance(n.ctx, (ast.Store, ast.Del)):
+                    bind(n.id, 'GkValue' if plain else 'GkVariable')
+    for n in ast.walk(tree):
+        if isinstance(n, ast.Global):
+            for nm in n.names:
+                kinds[nm] = 'GkVariable'
+    return kinds, set(dir(builtins))
+
+
+def _ctor_scan(tree, cname, kinds, builtin_names):
+    """`cname.__init__`: (globals it reaches: [(name, gkind)], ways it could keep state between two calls:
+    [source text]).  A leak is: a global / nonlocal statement; a default argument that is not an immutable
+    literal or a name; a store into an attribute or an item of anything but `self` or a local bound in this
+    very call to a fresh display (`self.f_locals = fl = {}`); a `del` of such."""
+    fn = find_func(tree, cname + '.__init__')
+    a = fn.args
+    params = {x.arg for x in a.args + a.kwonlyargs + a.posonlyargs}
+    if a.vararg:
+        params.add(a.vararg.arg)
+    if a.kwarg:
+        params.add(a.kwarg.arg)
+    leaks = []
+    for d in list(a.defaults) + [d for d in a.kw_defaults if d is not None]:
+        if not (_immutable_literal(d) or isinstance(d, ast.Name)):
+            leaks.append('default %s' % _u(d))
+    stored, fresh = set(), set()
+    for n in ast.walk(fn):
+        if isinstance(n, ast.Name) and isinstance(n.ctx, (ast.Store, ast.Del)):
+            stored.add(n.id)
+        if isinstance(n, ast.Assign) and isinstance(n.value, (ast.Dict, ast.List, ast.Set, ast.Tuple)):
+            fresh.update(t.id for t in n.targets if isinstance(t, ast.Name))
+        if isinstance(n, ast.comprehension):
+            stored.update(x.id for x in ast.walk(n.target) if isinstance(x, ast.Name))
+    # a local that is ever bound to something else than a fresh display is not "fresh"
+    for n in ast.walk(fn):
+        if isinstance(n, ast.Assign) and not isinstance(n.value, (ast.Dict, ast.List, ast.Set, ast.Tuple)):
+            for t in n.targets:
+                for x in ([t] if isinstance(t, ast.Name) else
+                          list(t.elts) if isinstance(t, (ast.Tuple, ast.List)) else []):
+                    if isinstance(x, ast.Name):
+                        fresh.discard(x.id)
+    for n in ast.walk(fn):
+        if isinstance(n, (ast.Global, ast.Nonlocal)):
+            leaks.append(_u(n))
+        if isinstance(n, (ast.Attribute, ast.Subscript)) and isinstance(n.ctx, (ast.Store, ast.Del)):
+            base = n.value
+            ok = isinstance(base, ast.Name) and (base.id == 'self' and isinstance(n, ast.Attribute)
+                                                 or base.id in fresh)
+            if not ok:
+                leaks.append('store %s' % _u(n))
+        if isinstance(n, (ast.Lambda, ast.FunctionDef, ast.AsyncFunctionDef, ast.ClassDef)) and n is not fn:
+            leaks.append('nested %s' % type(n).__name__)
+    free = []
+    for n in ast.walk(fn):
+        if isinstance(n, ast.Name) and isinstance(n.ctx, ast.Load) and n.id not in params \
+                and n.id not in stored and n.id not in free:
+            free.append(n.id)
+    globs = []
+    for nm in free:
+        if nm in kinds:
+            globs.append((nm, kinds[nm]))
+        elif nm in builtin_names:
+            globs.append((nm, 'GkBuiltin'))
+        else:
+            globs.append((nm, 'GkUnknown'))
+    return globs, leaks
+
+
 def _emit_reads(out, name, comment, reads):
     out.append('(* %s *)' % comment)
     out.append('Definition %s : list (list Z * option (list Z) * rd) :=' % name)
@@ -475,6 +628,31 @@ def gen_einfo(repo):
     out.append('Definition marker_globals : list (list Z * option (list Z)) := [%s].' % '; '.join(
         '(%s, %s)' % (_codes(k.value), 'None' if e.value is None else 'Some %s' % _codes(e.value))
         for k, e in zip(mg[0].keys, mg[0].values)))
+    out.append('')
+    # ---- nothing is kept between two constructor calls (data; decided in Coq: EInfoSeqProofs)
+    out.append('(* STRUCTURAL.  Class-level bindings of the record classes (a CbMutable one is a container')
+    out.append('   shared by every constructor call of the process), what the constructors reach by global')
+    out.append('   name, and the statements through which a constructor could keep something for the next')
+    out.append('   call (global / nonlocal, mutable default, store into anything but self or a local bound')
+    out.append('   to a fresh display in this call, nested function). *)')
+    out.append('Inductive cbind := CbMethod | CbConst | CbRef (n : list Z) | CbMutable (src : list Z)')
+    out.append('                 | CbOther (src : list Z).')
+    out.append('Inductive gkind := GkModule | GkClass | GkFunction | GkBuiltin | GkValue | GkVariable | GkUnknown.')
+    binds, globs, leaks = [], [], []
+    kinds, bnames = _module_kinds(tree)
+    for c in STATE_CLASSES:
+        binds += [(c, n, k) for n, k in _class_bindings(tree, c)]
+        g, l = _ctor_scan(tree, c, kinds, bnames)
+        globs += [(c, n, k) for n, k in g]
+        leaks += [(c, x) for x in l]
+    out.append('Definition class_bindings : list (list Z * list Z * cbind) :=')
+    out.append('  [' + ';\n   '.join('(* %s.%s *) (%s, %s, %s)' % (c, n, _codes(c), _codes(n), k)
+                                     for c, n, k in binds) + '].')
+    out.append('Definition ctor_globals : list (list Z * list Z * gkind) :=')
+    out.append('  [' + ';\n   '.join('(* %s.__init__ reads %s *) (%s, %s, %s)' % (c, n, _codes(c), _codes(n), k)
+                                     for c, n, k in globs) + '].')
+    out.append('Definition ctor_state_leaks : list (list Z * list Z) :=')
+    out.append('  [' + ';\n   '.join('(%s, %s)' % (_codes(c), _codes(x.replace('\n', ' ')[:80])) for c, x in leaks) + '].')
     out.append('')
     # ---- pickling protocol
     for c in ('Traceback', '_Frame', '_Code', '_Truncated'):
